@@ -19,7 +19,11 @@ def type_key(t, classes):
         return ["c", idx[t]]
     if t in (int, float, bool, str):
         return ["b", t.__name__]
-    return ["?", repr(t)[:80]]
+    import typing
+    if typing.get_origin(t) is typing.Union:
+        return ["u", [type_key(a, classes) for a in typing.get_args(t)]]
+    import re
+    return ["?", re.sub(r"geverif_grammar_\d+_\d+", "geverif_grammar", repr(t))[:80]]
 
 
 class Rep:
